@@ -804,10 +804,17 @@ def run_life_stream(stream):
 
     def one(item):
         env, cs = item
-        extra = {} if env is None else {"JOBLIB_START_METHOD": env}
+        if isinstance(env, str) and env.startswith("tf:"):
+            extra = {"JOBLIB_TEMP_FOLDER": env[3:]}
+        elif env in (None, "tf-unset"):
+            extra = {}
+        else:
+            extra = {"JOBLIB_START_METHOD": env}
         e = common.impl_env(extra)
-        if env is None:
+        if "JOBLIB_START_METHOD" not in extra:
             e.pop("JOBLIB_START_METHOD", None)
+        if "JOBLIB_TEMP_FOLDER" not in extra:
+            e.pop("JOBLIB_TEMP_FOLDER", None)
         rc, out, err = common.run_impl("c17_life_impl.py", input_text="\n".join(json.dumps(c) for c in cs) + "\n", env=e, timeout=900)
         lines = [json.loads(l) for l in out.splitlines() if l.strip()]
         if len(lines) != len(cs):
@@ -863,10 +870,70 @@ Definition show_calls (passes : bool) (ops : list oop) : list Z :=
 OPC = {"enter": "OEnter", "ok": "OCallOk", "fail": "OCallFail", "exit": "OExit"}
 
 
+F47_WITNESS = [{"mode": "pool", "backend": "loky", "args": {}, "enclosing": None, "objkw": None},
+               {"mode": "pool", "backend": "loky", "args": {"temp_folder": "<tmp>/tf/arg"}, "enclosing": None, "objkw": None}]
 F16_WITNESS = {"threads": [["with", "config", {"n_jobs": [2]}, ["obs", ["parallel", {"prefer": 1}]]]], "schedule": []}
 F16B_WITNESS = {"threads": [["with", "config", {"n_jobs": [3]}, ["obs", ["parallel", {"require": 1}]]]], "schedule": []}
 F17_WITNESS = {"threads": [["with", "config", {"require": 1},
                             ["obs", ["parallel", {"backend": ["inst", "loky", None, True], "n_jobs": [2]}]]]], "schedule": []}
+
+
+# ---- third stream: the temp folder the pool really uses, the kwargs the pool is really built with
+def gen_pool_stream(tmp):
+    A, C, O, E = (os.path.join(tmp, "tf", n) for n in ("arg", "ctx", "obj", "env"))
+    out = {}
+    for env in ("tf:" + E, "tf-unset"):
+        cs = [{"mode": "tempdir", "arg": None}, {"mode": "tempdir", "arg": A}]
+        for bk in ("multiprocessing", "loky"):
+            cs += [{"mode": "pool", "backend": bk, "args": {}, "enclosing": None, "objkw": None},
+                   {"mode": "pool", "backend": bk, "args": {"temp_folder": A}, "enclosing": None, "objkw": None},
+                   {"mode": "pool", "backend": bk, "args": {}, "enclosing": {"backend": bk, "temp_folder": C}, "objkw": None},
+                   {"mode": "pool", "backend": bk, "args": {"temp_folder": A}, "enclosing": {"temp_folder": C}, "objkw": None}]
+        out[env] = cs
+    # parameters carried by the backend object vs the same key passed by the call
+    m = "multiprocessing"
+    out["tf-unset"] += [
+        {"mode": "pool", "backend": m, "args": {}, "enclosing": {"backend": m, "maxtasksperchild": 7}, "objkw": None},
+        {"mode": "pool", "backend": m, "args": {"maxtasksperchild": 1}, "enclosing": {"backend": m, "maxtasksperchild": 7}, "objkw": None},
+        {"mode": "pool", "backend": m, "args": {}, "enclosing": None, "objkw": {"maxtasksperchild": 7}},
+        {"mode": "pool", "backend": m, "args": {"maxtasksperchild": 1}, "enclosing": None, "objkw": {"maxtasksperchild": 7}},
+        {"mode": "pool", "backend": m, "args": {"temp_folder": A}, "enclosing": None, "objkw": {"temp_folder": O}},
+        {"mode": "pool", "backend": m, "args": {}, "enclosing": {"temp_folder": C}, "objkw": {"temp_folder": O}},
+    ]
+    return out, {"A": A, "C": C, "O": O, "E": E}
+
+
+K_F47 = "temp_folder-ignored:loky-reused-executor-keeps-the-folder-it-was-created-with"
+
+
+def oracle_pool(env, c, r, paths, prev=None):
+    """the folder really used: explicit temp_folder > the context's > JOBLIB_TEMP_FOLDER > the library default; a key passed by
+    the call beats the same key carried by the backend object"""
+    if "harness_error" in r:
+        return "harness error " + r["harness_error"]
+    envp = env[3:] if env.startswith("tf:") else None
+    if c["mode"] == "tempdir":
+        exp = c["arg"] or envp or r["default_parent"]
+        return None if r["parent"] == exp else "_get_temp_dir(name, %r) with JOBLIB_TEMP_FOLDER=%r uses %r, expected %r" % (
+            c["arg"], envp, r["parent"], exp)
+    given = c["args"].get("temp_folder") or (c.get("enclosing") or {}).get("temp_folder")
+    exp = given or envp or r["default_parent"]
+    if r["pool_temp_parent"] != exp and c["backend"] == "loky" and prev is not None and prev[0] == r.get("executor_id") \
+            and r["pool_temp_parent"] == prev[1]:
+        return ("KNOWN:the loky executor of an earlier call is reused and keeps ITS temp folder %r; the temp_folder resolved for this "
+                "call (%r) is ignored" % (prev[1], exp))
+    if r["pool_temp_parent"] != exp:
+        return ("the %s pool really uses temp folder %r, expected %r (explicit %r > context %r > JOBLIB_TEMP_FOLDER %r > default)" % (
+            c["backend"], r["pool_temp_parent"], exp, c["args"].get("temp_folder"), (c.get("enclosing") or {}).get("temp_folder"), envp))
+    if c["backend"] == "multiprocessing":
+        obj = (c.get("objkw") or {}).get("maxtasksperchild", (c.get("enclosing") or {}).get("maxtasksperchild"))
+        want = c["args"].get("maxtasksperchild", obj)
+        if r["maxtasksperchild"] != want:
+            return ("the pool was built with maxtasksperchild=%r, expected %r (Parallel argument %r > the backend object's own %r)" % (
+                r["maxtasksperchild"], want, c["args"].get("maxtasksperchild"), obj))
+    if len(r["built"]) != 1 or r["built"][0]["size"] != 2:
+        return "the pool / executor was built %s, expected once with 2 workers" % r["built"]
+    return None
 
 
 def search_life(ctx):
@@ -879,6 +946,16 @@ def search_life(ctx):
             else:
                 bad, key = oracle_life(c, r)
             if bad and key is None:
+                return bad, dict(c, env=env)
+    pstream, paths = gen_pool_stream(ctx.tmp)
+    pres = run_life_stream(pstream)
+    for env, cs in pstream.items():
+        prev = None
+        for c, r in zip(cs, pres[env]):
+            bad = oracle_pool(env, c, r, paths, prev)
+            if c["mode"] == "pool" and c["backend"] == "loky" and "executor_id" in r:
+                prev = (r["executor_id"], r["pool_temp_parent"])
+            if bad and not bad.startswith("KNOWN:"):
                 return bad, dict(c, env=env)
     return None
 
@@ -913,7 +990,9 @@ def run(ctx):
     translator_ok = True
     gens = [(gen_c17.generate, "T_config_param", "_get_config_param"),
             (gen_c17.generate_active_backend, "T_active_backend", "_get_active_backend"),
-            (gen_c17.generate_mp_context, "T_mp_context", "Parallel.__init__ mp context / abort_everything")]
+            (gen_c17.generate_mp_context, "T_mp_context", "Parallel.__init__ mp context / abort_everything"),
+            (gen_c17.generate_backend_attrs, "T_backend_attrs", "class attributes of the backend classes"),
+            (gen_c17.generate_pool_settings, "T_pool_settings", "_get_temp_dir / backend kwargs merge")]
     rejected = set()
     for gen, fname, label in gens:
         try:
@@ -1061,6 +1140,55 @@ def run(ctx):
         if parse_coq_lists(v) != iv:
             disagreements.append({"case": c, "function": "src_mp_context / object life machine", "impl": iv, "model": v, "raw": r})
     n_obs += life_stats["ctx_cases"] + life_stats["configure_calls"]
+
+    # ---- third stream: temp folder really used / kwargs the pool is really built with (JOBLIB_TEMP_FOLDER set / unset)
+    ctx.coq_build(["Gen/T_pool_settings.vo"])
+    pstream, paths = gen_pool_stream(ctx.tmp)
+    pres = run_life_stream(pstream)
+    use_ps = "T_pool_settings" not in rejected and os.path.exists(os.path.join(common.COQ, "Gen", "T_pool_settings.vo"))
+    pexprs, pmeta = [], []
+    pool_stats = {"tempdir_units": 0, "pools_built": 0}
+    code = {paths["A"]: 1, paths["C"]: 2, paths["E"]: 3, "/dev/shm": 4, paths["O"]: 6}
+    for env, cs in pstream.items():
+        envp = env[3:] if env.startswith("tf:") else None
+        prev = None
+        for c, r in zip(cs, pres[env]):
+            bad = oracle_pool(env, c, r, paths, prev)
+            if bad and bad.startswith("KNOWN:"):
+                findings.setdefault(K_F47, (bad[6:], {"pool_case": dict(c, env=env)}))
+            elif bad:
+                life_problems.append((bad, dict(c, env=env), r))
+            if "harness_error" in r:
+                continue
+            if c["mode"] == "pool" and c["backend"] == "loky":
+                g_ = c["args"].get("temp_folder") or (c.get("enclosing") or {}).get("temp_folder") or envp or r["default_parent"]
+                reused = prev is not None and prev[0] == r["executor_id"]
+                fnl = "loky_folder_used reuse_key_has_temp_folder reused_executor_gets_new_manager" if use_ps else "loky_folder_used false false"
+                pexprs.append("[%s %d %d %s]" % (fnl, code.get(prev[1], 5) if prev else 0, code.get(g_, 5), "true" if reused else "false"))
+                pmeta.append((dict(c, env=env), [code.get(r["pool_temp_parent"], 5)], r))
+                prev = (r["executor_id"], r["pool_temp_parent"])
+                pool_stats["pools_built"] += 1
+                continue
+            pool_stats["tempdir_units" if c["mode"] == "tempdir" else "pools_built"] += 1
+            shm = "(Some 4)" if r["default_parent"] == "/dev/shm" else "None"
+            given = c["arg"] if c["mode"] == "tempdir" else (c["args"].get("temp_folder") or (c.get("enclosing") or {}).get("temp_folder"))
+            fn = "src_temp_folder" if use_ps else "(fun a e s d => Some (gcp a e (gcp s None d)))"
+            pexprs.append("match %s %s %s %s 5 with Some v => [v] | None => [0] end" % (
+                fn, "None" if given is None else "(Some %d)" % code[given], "None" if envp is None else "(Some 3)", shm))
+            got = r["parent"] if c["mode"] == "tempdir" else r["pool_temp_parent"]
+            pmeta.append((dict(c, env=env), [code.get(got, 5)], r))
+            if c["mode"] == "pool" and c["backend"] == "multiprocessing":
+                obj = (c.get("objkw") or {}).get("maxtasksperchild", (c.get("enclosing") or {}).get("maxtasksperchild"))
+                call = c["args"].get("maxtasksperchild")
+                fn2 = "src_mp_pool_kwarg" if use_ps else "(fun o c => match c with Some v => Some v | None => o end)"
+                pexprs.append("match %s %s %s with Some v => [v] | None => [0] end" % (
+                    fn2, "None" if obj is None else "(Some %d)" % obj, "None" if call is None else "(Some %d)" % call))
+                pmeta.append((dict(c, env=env), [r["maxtasksperchild"] or 0], r))
+    pvals = ctx.coq_eval_lines(REQ_LIFE % (" JV.Gen.T_pool_settings" if use_ps else ""), "", pexprs, name="c17_pool")
+    for (c, iv, r), v in zip(pmeta, pvals):
+        if parse_coq_lists(v) != iv:
+            disagreements.append({"case": c, "function": "src_temp_folder / src_mp_pool_kwarg", "impl": iv, "model": v, "raw": r})
+    n_obs += len(pexprs)
     for bad, c, r in life_problems[:3]:
         ctx.violation(bad, {"kind": "oracle", "case": c, "impl": r}, True)
 
@@ -1100,8 +1228,23 @@ def run(ctx):
             ctx.violation("witness of a _refuted theorem no longer fails on the implementation (%s): the model is stale" % key,
                           {"kind": "stale-model", "case": wit, "key": key}, found_input=False)
     for key, (bad, detail) in findings.items():
+        if detail is not None and "pool_case" in detail:
+            ctx.violation(bad, {"kind": "known-finding", "case": detail["pool_case"], "witness": F47_WITNESS}, True, finding_key=key)
+            continue
         ctx.violation(bad, {"kind": "known-finding", "case": LIFE_WITNESS if detail is None else minimal_replay(detail)}, True,
                       finding_key=key)
+    # F47 witness (C17_loky_temp_folder_reuse_refuted) must still fail on the implementation, in a fresh interpreter
+    wcs = [dict(cw, args=dict(cw["args"], **({"temp_folder": os.path.join(ctx.tmp, "tf", "arg")} if cw["args"] else {}))) for cw in F47_WITNESS]
+    wres = run_life_stream({"tf-unset": wcs})["tf-unset"]
+    wprev = (wres[0].get("executor_id"), wres[0].get("pool_temp_parent"))
+    wbad = oracle_pool("tf-unset", wcs[1], wres[1], None, wprev)
+    if wbad and wbad.startswith("KNOWN:"):
+        ctx.violation(wbad[6:], {"kind": "known-finding", "case": F47_WITNESS}, True, finding_key=K_F47)
+    elif wbad:
+        ctx.violation(wbad, {"kind": "oracle", "case": F47_WITNESS}, True)
+    else:
+        ctx.violation("witness of C17_loky_temp_folder_reuse_refuted no longer fails on the implementation: the model is stale",
+                      {"kind": "stale-model", "case": F47_WITNESS, "key": K_F47}, found_input=False)
     if not translator_ok and not disagreements and not problems and proofs_ok:
         ctx.note("translator tie lost, hand-model tie intact")
     ctx.finish({
@@ -1121,6 +1264,7 @@ def run(ctx):
         "observation_distribution": dist,
         "threads_per_case": sorted({len(c["threads"]) for c in cases}),
         "start_method_and_object_life": life_stats,
+        "pool_temp_folder_and_kwargs": pool_stats,
         "disagreements": len(disagreements),
         "translator_ok": translator_ok,
         "exhaustive": "depth<=2 over the reduced value set",
@@ -1137,6 +1281,12 @@ def replay(ctx, path):
     obj = json.load(open(path))
     rep = obj.get("replay", obj)
     c = rep.get("case") or rep.get("input")
+    if c and c.get("mode") in ("pool", "tempdir"):
+        env = c.get("env")
+        r = run_life_stream({env: [c]})[env][0]
+        bad = oracle_pool(env, c, r, None)
+        print("replay:", json.dumps(c), "->", json.dumps(r)[:600], "=>", bad or "property holds")
+        return 1 if bad else 0
     if c and c.get("mode") in ("ctx", "life"):
         env = c.get("env")
         r = run_life_stream({env: [c]})[env][0]
